@@ -527,3 +527,23 @@ def call_params(fi: FuncInfo) -> List[str]:
     """parameter names a call site binds: without the receiver of a method / classmethod"""
     ps = list(fi.all_params)
     return ps[1:] if ps and (fi.has_self or fi.is_classmethod) and not fi.is_static else ps
+
+
+def seq_source(e, binds=None, depth=0):
+    """Where the elements of a sequence expression come from, looking through list()/reversed()/[::-1],
+    single-assignment bindings AND comprehensions that hand their elements on unchanged
+    (`[(g, w, p) for g, w, p in X if c]` is X in X's order, filtered): (core, reversals mod 2, filters) with filters a
+    list of (test, comprehension target).  A comprehension that transforms its elements ends the search (it is the core)."""
+    par = 0
+    filters = []
+    while depth < 30:
+        depth += 1
+        core, p_ = reversal_parity(e, binds)
+        par ^= p_
+        if isinstance(core, (ast.ListComp, ast.GeneratorExp)) and len(core.generators) == 1 and norm(core.elt) == norm(core.generators[0].target):
+            for t in core.generators[0].ifs:
+                filters.append((t, core.generators[0].target))
+            e = core.generators[0].iter
+            continue
+        return core, par, filters
+    return e, par, filters
